@@ -170,6 +170,13 @@ def tcase(draw, nmax, accessor=False):
         case["x"] = [int(F(a_num, a_den) * d + b) for d in pos]
     elif kind == "random":
         case["x"] = draw(st.lists(st.integers(-10000, 10000), min_size=n, max_size=n))
+        if draw(st.integers(0, 3)) == 0:
+            # anomalies: mixed sign, summing to exactly zero
+            xs = draw(st.lists(st.integers(-2000, 2000), min_size=n - 1, max_size=n - 1))
+            last = -sum(xs)
+            if -10000 <= last <= 10000:
+                case["x"] = xs + [last]
+                case["zero_sum"] = True
     else:
         case["x"] = draw(gens.series(n=n, classes=["seasonal", "walk", "step", "flat_spikes"]))["y"]
     if accessor:
